@@ -143,7 +143,7 @@ def cli_family(pid, tier, chk):
     if pid == "C16":
         # C16 is about successful runs: the fault-free plans (every split of the samples over files / lookups / -m / -l)
         plans = [p for p in plans if p["fault"] == "none" and p["out"] != "unwritable"
-                 and all(a["kind"] in ("list", "object", "lookup") for a in p["args"])]
+                 and all(a["kind"] in ("list", "object", "lookup", "glob") for a in p["args"])]
     if quick:
         chk.rng.shuffle(plans)
         plans = plans[:260]
